@@ -57,6 +57,21 @@ CHECKS = {
         text="Reference lookup rules (array index with negatives, first/last/size, map entry with size fallback, nil for every step that does not apply, strict-variables error for a nil final value) are compared with the real evaluator on the complete grid array length 0..5 x 4 representations x index -7..7 spelled four ways x non-integer indices, on map and scalar access grids, and on every lookup tree of depth <=2 (quick) / <=3 (thorough) over 16 atoms. Filter pipelines are decided by the law the statement gives: every chain of 2|3 steps over ~100 filter steps and 14 receivers must render as its assign-by-assign decomposition; unknown filters and one argument too many must be errors for every standard filter; whitespace (including newlines) from a 4-symbol set is inserted in every gap of 7 tag/object forms (all 4^k combinations), and dot/bracket/quote spellings must agree.",
         note="Unspecified (not compared): float indices, string properties/indexing, array[\"first\"], map[\"size\"] without key, range indexing. Filter arities from the table in mc/props/c08.go.",
         tech="exhaustive lookup-grid and expression-tree enumeration against reference lookup rules, plus pipeline-decomposition and spelling-invariance laws"),
+    "C05": dict(
+        cat="exploration", ref="4/C05",
+        text="Every string of length <=6 (quick) / <=8 (thorough) over the 8-character alphabet { % } - \" space newline a is tokenised by the real parser.Scan at three starting lines and checked against the partition law (token sources concatenate to the input, trim tokens are empty), the line-number law, and text-only identity; the same strings are used as raw bodies (three spellings) and comment bodies, comment bodies are additionally drawn from lexical fragments containing failing and probing constructs (nothing may be evaluated), and all strings of length <=3|4 over a 19-symbol value alphabet are printed as string, []byte and *string in five positions. A scaled family repeats every string of length <=3 up to 16384 times.",
+        note="Laws on the implementation's own output only. Known finding: a raw/comment body whose unclosed tag- or object-opener extends over the end tag is not handled (tokenizer is not raw-aware).",
+        tech="exhaustive string enumeration over a delimiter alphabet with partition/line/identity laws on the real tokenizer and renderer"),
+    "C06": dict(
+        cat="model_checking", ref="4/C06",
+        text="A pushdown acceptor written from the Liquid documentation (stack of open blocks with their admitted clauses, comment and raw modes) decides acceptance of every token sequence of length <=5 (quick, 5.4 M) / <=6 (thorough, 119 M) over a 22-symbol alphabet of block openers, clause tags, end tags, a plain tag, an object and text markers; each sequence is parsed by the real ParseTemplate (no state merging), accept/reject must agree, rejected input must return nil and a SourceError, and for accepted input the tree read through GetRoot and the rendered markers must equal the model's tree and taken paths.",
+        note="Rendering not compared when a clause follows an else or content precedes the first when. PDA and clause table in mc/props/c06.go share no code with /repo.",
+        tech="exhaustive token-sequence enumeration against a pushdown-automaton model, every model trace replayed on the real parser"),
+    "C07": dict(
+        cat="exploration", ref="4/C07",
+        text="20 kinds of failing construct are placed in the taken body of every nesting path of depth 0..2 (quick) / 0..3 (thorough) over 7 enclosing block forms, under all combinations of 0/1/2 preceding newlines at every level, with and without newlines inside tags, parsed with and without a path at start lines 0, 1 and 7, through both entry points; the generator knows the byte offset of the failing construct, so the returned SourceError is checked for line = start + preceding newlines, path, cause chain (sentinel filter error, os.IsNotExist, conversion error), message, parse-time vs render-time, and no output together with an error.",
+        note="Placement inside included files is not enumerated (the statement does not say whose line is meant).",
+        tech="exhaustive placement enumeration of failing constructs (kind x nesting path x layout x location) with a generator-known expected location"),
 }
 
 NOT_YET = "check not built yet (work in progress; see DESIGN.md section 7 build order)"
